@@ -1,4 +1,4 @@
-from vf.gen import Plan
+from vf.gen import Plan, Module
 from props.fam_l1 import l1_loader_module
 from props.fam_l3 import l3_module
 from props.fam_l2 import l2_module, l2_dump_module
@@ -7,6 +7,32 @@ from props.fam_l2 import l2_module, l2_dump_module
 def build(tier, seed):
     mods = [l1_loader_module("C02", tier), l2_module("C02", tier), l2_dump_module("C02", tier)]
     mods.append(l3_module("C02", tier))
+    mn = Module("c02_unwrap").pre('''
+from typing import NewType, Annotated
+from adaptix import Retort, loader, dumper
+Cents = NewType("Cents", int)
+Price = NewType("Price", Cents)
+Deep = NewType("Deep", Price)
+Plain = NewType("Plain", int)
+def lc(x): return ("cents", x)
+def dc(x): return ("dumped", x)
+RN = {dt: Retort(recipe=[loader(Cents, lc), dumper(Cents, dc)], debug_trail=dt) for dt in DT_MODES}
+TS = {"Cents": Cents, "Price": Price, "Deep": Deep, "AnnPrice": Annotated[Price, "m"], "ListPrice": List[Price], "OptDeep": Optional[Deep], "Plain": Plain}
+LN = {(n, dt): r.get_loader(t) for n, t in TS.items() for dt, r in RN.items()}
+DN = {(n, dt): r.get_dumper(t) for n, t in TS.items() for dt, r in RN.items()}
+def unwrap(x):
+    """a NewType behaves as its origin type INCLUDING user providers registered for an intermediate NewType; Annotated is transparent"""
+    for dt in DT_MODES:
+        for n in ("Cents", "Price", "Deep", "AnnPrice"):
+            if LN[(n, dt)](x) != ("cents", x) or DN[(n, dt)](x) != ("dumped", x): return False
+        if LN[("ListPrice", dt)]([x, x]) != [("cents", x), ("cents", x)] or DN[("ListPrice", dt)]([x]) != [("dumped", x)]: return False
+        if LN[("OptDeep", dt)](x) != ("cents", x) or LN[("OptDeep", dt)](None) is not None: return False
+        if LN[("Plain", dt)](x) != x or DN[("Plain", dt)](x) != x: return False
+    return True
+''')
+    mn.ob("newtype_chain", "x: int", "return unwrap(x)", timeout=60, family="NewType chains / Annotated unwrapping with a provider on an intermediate NewType",
+          bounds="3-level NewType chain, Annotated, List, Optional; x any int")
+    mods.append(mn)
     from props.C15 import build as build_c15
     for m15 in build_c15(tier, seed).modules:
         if m15.key == "c15_literal":
